@@ -910,3 +910,11 @@ MUTANTS.append({"id": "c10-neutral-fixed-route-test-in-segment-class", "prop": "
 M("c10-zigzag-position-thrown-away", "C10", "cola/libavoid/orthogonal.cpp",
   "        void updatePositionsFromSolver(const bool justUnifying)\n        {\n            if (fixed)\n", "        void updatePositionsFromSolver(const bool justUnifying)\n        {\n            if (fixed || zigzag())\n",
   mention=["FIXED-DECISION-CONSISTENT"])
+
+# ---------------------------------------------------------------- C02 round d
+MUTANTS.append({"id": "c02-multipliers-in-single-precision", "prop": "C02", "expect": "fire", "mention": ["DOUBLE-PRECISION"], "tu": ["cola/libvpsc/constraint.cpp", "cola/libavoid/vpsc.cpp"], "edits": [
+    {"file": "cola/libvpsc/constraint.h", "old": "\tdouble lm;", "new": "\tfloat lm;", "count": 1},
+    {"file": "cola/libavoid/vpsc.h", "old": "    double lm;", "new": "    float lm;", "count": 1}]})
+M("c02-static-solver-keeps-stale-blocks", "C02", "cola/libvpsc/solve_VPSC.cpp",
+  "    delete bs;\n    bs=new Blocks(vs);\n    for(unsigned i=0;i<m;i++) {\n        cs[i]->active=false;\n    }\n    list<Variable*> *vList=bs->totalOrder();", "    list<Variable*> *vList=bs->totalOrder();",
+  mention=["STATIC-SOLVER-FRESH-START"])
